@@ -347,9 +347,17 @@ def gen_reuse(tier):
             new = k == 0 or draw(st.booleans())
             reuse = draw(st.booleans()) if (not new or k == 0) else False
             steps.append([bool(new), bool(reuse)])
-        return {"shape": g["shape"], "vox": g["vox"], "vk": g["vk"],
+        # physical size of the voxels: order one, or a photograph / micro-model in SI units (voxels of
+        # 1e-5 .. 1e-3 m, flux-block entries h^d * weight below 1e-8) or a field-scale domain; an exact
+        # power of two, so the systems are the same up to scaling (round 5, C08-u2)
+        # With the direct back-end only: the iterative back-ends are driven here with the harness's fixed
+        # absolute tolerance (1e-13), which is not "tight" any more next to data of size 1e-10 - a first
+        # version applied the scaling to all back-ends and raised a false alarm (CG stopping at x = 0).
+        solver = draw(st.sampled_from(["direct", "direct", "amg", "cg"]))
+        vexp = draw(st.sampled_from([0, 0, 0, -17, -10, 12])) if solver == "direct" else 0
+        return {"shape": g["shape"], "vox": [v * 2.0 ** vexp for v in g["vox"]], "vk": g["vk"], "vox_exp": vexp,
                 "form": draw(st.sampled_from(FORMS)),
-                "solver": draw(st.sampled_from(["direct", "direct", "amg", "cg"])),
+                "solver": solver,
                 "steps": steps,
                 "pseed": draw(st.integers(0, 2**20))}
     return strat()
